@@ -19,3 +19,12 @@ Theorem C20_history_independent : forall a b m S build n,
 Proof. exact history_independent_no_state_read. Qed.
 
 Print Assumptions C20_history_independent.
+
+(** resolve_tx resets the instance before its first pass (Compiler::reset), so for every template,
+    also one that reads the body left behind (min_utxo), the resolution is the same from every
+    prior state: after any history of earlier resolutions, whatever their outcome *)
+Theorem C20_history_independent_after_reset : forall a b m S build fresh max_rounds (s1 s2 : S),
+  resolve a b m S build fresh max_rounds s1 = resolve a b m S build fresh max_rounds s2.
+Proof. exact history_independent_after_reset. Qed.
+
+Print Assumptions C20_history_independent_after_reset.
